@@ -22,7 +22,10 @@ class Outcome:
     return self.stage == 'ok' and self.model is not None
 
   def exc_key(self):
-    return f'{self.stage}:{self.exc_type}:{(self.exc_msg or "")[:60]}'
+    import re
+    msg = re.sub(r"b?'[^']*'", '<name>', self.exc_msg or '')
+    msg = re.sub(r'\bop\d+_\w+(/\w+)?', '<name>', msg)
+    return f'{self.stage}:{self.exc_type}:{msg[:70]}'
 
 
 def _fail(o, stage, e):
